@@ -54,3 +54,33 @@ def mkcds(spec, parent=None, **kw):
     return CDSInterval(
         [b[0] for b in bl], [b[1] for b in bl], STRAND[spec["strand"]], [CDSFrame(f) for f in spec["frames"]],
         parent_or_seq_chunk_parent=parent, **kw)
+from inscripta.biocantor.gene.transcript import TranscriptInterval  # noqa: E402
+from inscripta.biocantor.gene.feature import FeatureInterval  # noqa: E402
+from inscripta.biocantor.gene.biotype import Biotype  # noqa: E402
+
+
+def mktx(spec, parent=None, sequence_name="chr1", **kw):
+    ex = spec["exons"]
+    cds = spec.get("cds")
+    args = dict(
+        exon_starts=[b[0] for b in ex], exon_ends=[b[1] for b in ex], strand=STRAND[spec["strand"]],
+        cds_starts=[b[0] for b in cds] if cds else None, cds_ends=[b[1] for b in cds] if cds else None,
+        cds_frames=[CDSFrame(f) for f in spec["frames"]] if cds else None,
+        qualifiers=spec.get("qualifiers") or None, is_primary_tx=spec.get("is_primary_tx"),
+        transcript_id=spec.get("transcript_id"), transcript_symbol=spec.get("transcript_symbol"),
+        transcript_type=Biotype[spec["transcript_type"]] if spec.get("transcript_type") else None,
+        sequence_name=spec.get("sequence_name", sequence_name), protein_id=spec.get("protein_id"), product=spec.get("product"),
+        parent_or_seq_chunk_parent=parent)
+    args.update(kw)
+    return TranscriptInterval(**args)
+
+
+def mkfeat(spec, parent=None, sequence_name="chr1", **kw):
+    bl = spec["blocks"]
+    args = dict(
+        interval_starts=[b[0] for b in bl], interval_ends=[b[1] for b in bl], strand=STRAND[spec["strand"]],
+        qualifiers=spec.get("qualifiers") or None, sequence_name=spec.get("sequence_name", sequence_name),
+        feature_types=spec.get("feature_types"), feature_name=spec.get("feature_name"), feature_id=spec.get("feature_id"),
+        is_primary_feature=spec.get("is_primary_feature"), parent_or_seq_chunk_parent=parent)
+    args.update(kw)
+    return FeatureInterval(**args)
